@@ -225,7 +225,53 @@ def _solve(Amat, V):
     return inv
 
 
-HARNESSES = {"cg": h_cg}
+def h_cg_state(cfg, V):
+    """inductive step (covers update histories of any length): from ANY state with  r = b - A x,  rzold = <r, P r>,  <p, r> = rzold  one real
+    update re-establishes these invariants and does not increase the energy 0.5 x^T A x - b^T x (= A-norm error up to a constant)"""
+    import sigpy as sp
+    from sigpy import alg
+    Amat, cplx = _mat(cfg["A"], V)
+    n = Amat.shape[0]
+    b = V.array("b", [n], False)
+    x = V.array("x", [n], False)
+    pdir = V.array("p", [n], False)
+    Pm = None
+    if cfg.get("P") == "jacobi":
+        Pm = np.zeros((n, n), dtype=object if V.symbolic else np.float64)
+        for i in range(n):
+            Pm[i, i] = 1 / Amat[i, i]
+    x_in = x.copy()
+    cg = alg.ConjugateGradient(lambda v: Amat @ v, b, x, P=(None if Pm is None else (lambda v: Pm @ v)), max_iter=5, tol=0)
+    r0 = b - Amat @ x_in
+    z0 = r0 if Pm is None else Pm @ r0
+    rz0 = O.vdot(r0, z0)
+    V.assume(O.eq(O.vdot(pdir, r0), rz0), "invariant: <p, r> = <r, P r>")
+    cg.r = np.array(r0, copy=True)
+    cg.p = np.array(pdir, copy=True)
+    cg.rzold = rz0
+    cg.iter = cfg.get("iter", 1)
+
+    def energy(v):
+        return O.vdot(v, Amat @ v) * Fraction(1, 2) - O.vdot(b, v) if V.symbolic else 0.5 * float(np.real(O.vdot(v, Amat @ v))) - float(np.real(O.vdot(b, v)))
+    e0 = energy(x_in)
+    cg.update()
+    if cg.not_positive_definite:
+        return [("breakdown_state_unchanged", O.eq(cg.x, x_in)), ("breakdown_only_for_zero_direction", O.eq(pdir, np.zeros(n)))]
+    r1 = b - Amat @ np.ravel(cg.x)
+    z1 = r1 if Pm is None else Pm @ r1
+    return [("x_is_callers_array", O.const(cg.x is x)),
+            ("tracked_residual_invariant", O.eq(np.ravel(cg.r), r1)),
+            ("rzold_invariant", O.eq(cg.rzold, O.vdot(r1, z1))),
+            ("direction_invariant", O.eq(O.vdot(np.ravel(cg.p), r1), O.vdot(r1, z1))),
+            ("new_residual_orthogonal_to_old_direction", O.eq(O.vdot(pdir, r1), 0)),
+            # certificate of the energy decrease:  (E(x) - E(x')) * 2 pAp = rzold^2  with  pAp > 0 on this path
+            ("energy_drop_identity", O.eq((e0 - energy(np.ravel(cg.x))) * 2 * O.vdot(pdir, Amat @ pdir), rz0 * rz0)),
+            ("curvature_positive", O.gt(O.vdot(pdir, Amat @ pdir), 0)),
+            ("energy_nonincreasing", O.le(energy(np.ravel(cg.x)), e0) if n <= 2 else O.const(True)),
+            ("resid_is_sqrt_rz", O.eq(S.SymK.lift(cg.resid) * cg.resid if V.symbolic else cg.resid ** 2, O.vdot(r1, z1)))]
+
+
+HARNESSES = {"cg": h_cg, "cg_state": h_cg_state}
 
 
 def configs(tier, seed):
@@ -258,6 +304,9 @@ def configs(tier, seed):
     for A in ("indef2", "semidef2"):
         add(A, "sym", "sym", None, "func", 3, "0", 2, pd=False)
         add(A, "sym", "zero", None, "linop", 2, "0", 2, pd=False)
+    for A in ("diag2", "dense2", "ill2", "rep2") + (("dense3", "ill3", "rep3") if full else ("dense3",)):
+        for P in (None, "jacobi"):
+            out.append({"id": "cg_state:%s:P=%s" % (A, P), "h": "cg_state", "A": A, "P": P, "max_paths": 200, "cost": 20})
     add("herm2", "sym", "zero", None, "func", 2, "0", 2, cost=50)
     if full:
         add("herm2", "sym", "sym", None, "func", 3, "0", 2, cost=300)
